@@ -130,7 +130,10 @@ def is_equivalent(lhs: Node | None, rhs: Node | None) -> bool:
             return True
 
         case NameExpr() as lhs, NameExpr() as rhs:
-            return unmangle_name(lhs.fullname) == unmangle_name(rhs.fullname)
+            # Names which Mypy could not resolve all have an empty fullname
+            return unmangle_name(lhs.name) == unmangle_name(rhs.name) and unmangle_name(
+                lhs.fullname
+            ) == unmangle_name(rhs.fullname)
 
         case MemberExpr() as lhs, MemberExpr() as rhs:
             return (
